@@ -49,7 +49,7 @@ INSPECT = ("str", "repr", "identity", "length", "payload", "msgmode", "serialize
 
 def floors(tier):
     return {"parse:len!=conforming": 5000, "parse:accepted": 3000, "parse:rejected": 2000,
-            "stream": 2500, "stream:pipe-like": 800, "socket": 400, "parse:prefix": 5000, "stream:qe=2": 500, "stream:has-rejected": 500, "bytes": 500}
+            "stream": 2500, "stream:pipe-like": 800, "deep-run": 50, "socket": 400, "parse:prefix": 5000, "stream:qe=2": 500, "stream:has-rejected": 500, "bytes": 500}
 
 
 def plan(tier, seed):
@@ -57,7 +57,8 @@ def plan(tier, seed):
     idx = list(range(len(targets)))
     specs = [{"what": "lengths", "targets": p} for p in C.split_round_robin(idx, 24)]
     specs += [{"what": "streams", "part": i} for i in range(12)]
-    specs += [{"what": "bytes"}, {"what": "sockets", "part": 0}, {"what": "sockets", "part": 1}]
+    specs += [{"what": "bytes"}, {"what": "sockets", "part": 0}, {"what": "sockets", "part": 1},
+              {"what": "depth", "part": 0}, {"what": "depth", "part": 1}]
     if tier == "thorough":
         specs += [{"what": "atheris", "part": i, "corpus": "valid" if i % 4 else "empty"} for i in range(16)]
     return specs
@@ -287,6 +288,29 @@ def run_shard(spec, ctx, acc):
         strat = st.tuples(st.one_of(streams.garbage_streams(), streams.clean_streams(1, 5)), sopts2).map(mk)
         core.hyp_search(acc, strat, check, seed=core.derive(ctx["seed"], PROP, "s", spec["part"]),
                         max_examples=350 if tier == "quick" else 9000, known=known, rounds=4)
+        return
+    if spec["what"] == "depth":
+        # thousands of complete small frames back to back: accepted, rejected and -
+        # with a protocol filter - skipped ones (anything that grows with the number
+        # of consecutive frames of one kind shows here)
+        ack = codec.ubx_frame(b"\x05", b"\x01", b"\x06\x01")
+        bad = ack[:-1] + b"\x00"
+        txt = codec.nmea_frame("GNTXT,01,01,02,A")
+        rt = codec.rtcm_frame(bytes.fromhex("3ed00003"))
+        runs = [ack * 1200 + txt * 2, txt * 1200 + ack, rt * 1200 + ack + txt, bad * 1200 + ack,
+                (ack + txt + rt) * 420, codec.nmea_frame("GNTXT,01,01,02,A", good=False) * 1200 + ack]
+        for j, data in enumerate(runs):
+            if j % 2 != spec["part"] % 2:
+                continue
+            for pf in (7, 1, 2, 4, 0, 5):
+                for qe in (0, 1, 2):
+                    case = {"kind": "stream", "data": data, "has_rejected": j in (3, 5), "pipe": False,
+                            "opts": {"msgmode": 0, "validate": 1, "protfilter": pf, "parsing": True, "quitonerror": qe,
+                                     "parsebitfield": 1, "handler": True}}
+                    o = check(case)
+                    o.classes = list(o.classes) + ["deep-run"]
+                    o.sample = {"stream": data[:24], "len": len(data), "repeats": 1200, "opts": case["opts"]}
+                    core.handle(acc, o, case, known)
         return
     if spec["what"] == "sockets":
         @st.composite
